@@ -149,7 +149,8 @@ func mustRSA(p string) *rsa.PrivateKey {
 	return k
 }
 
-var fixedRSA = []*rsa.PrivateKey{mustRSA(pemRSA1024), mustRSA(pemRSA2048), mustRSA(pemRSA3072)}
+// even sizes (ssh-keygen) and odd modulus bit lengths with unbalanced primes (genoddkeys.go)
+var fixedRSA = []*rsa.PrivateKey{mustRSA(pemRSA1024), mustRSA(pemRSA2048), mustRSA(pemRSA3072), mustRSA(pemRSA1025), mustRSA(pemRSA2047), mustRSA(pemRSA3001)}
 
 var fixedDSA = func() *dsa.PrivateKey {
 	b, _ := pem.Decode([]byte(pemDSA))
